@@ -79,6 +79,25 @@ Theorem C03_clip_exact : forall a bb k c m p,
   paint bb k (lower1c (Clip a) bb c) m p = paint bb k c m p.
 Proof. exact clip_exact. Qed.
 
+(* call level (for a parent that does not bounds-check): whatever a clipped target hands to its parent lies inside
+   clip /\ parent box - every pixel of a draw_iter, the whole AREA of a fill_contiguous / fill_solid; a Clear is
+   never forwarded.  No hypothesis.
+     call_within r c := DrawIter ps: every point of ps is in r | Fill* a: contains a p -> contains r p | Clear: False *)
+Theorem C03_clip_call_area_inside : forall a bb c, call_within (intersection a bb) (lower1c (Clip a) bb c).
+Proof. exact clip_lower_within. Qed.
+
+(* ... hence nothing outside clip /\ parent box changes even on an UNBOUNDED canvas (a parent that stores every pixel
+   it is handed), and inside the effect is that of the original call *)
+Theorem C03_clip_call_confined : forall own F a bb c m q,
+  call_sizes c -> size_nonneg (intersection a bb) ->
+  free_paint own F (lower1c (Clip a) bb c) m q =
+  if contains (intersection a bb) q then free_paint (intersection a bb) F c m q else m q.
+Proof. exact clip_call_confined. Qed.
+
+Theorem C03_call_within_untouched : forall own F r c m q,
+  call_within r c -> contains r q = false -> free_paint own F c m q = m q.
+Proof. exact call_within_untouched. Qed.
+
 (* ---- translated ------------------------------------------------------------------------------------ *)
 Theorem C03_transl_bbox : forall d bb q,
   contains (bbox_of (Transl d) bb) q = contains bb (padd q d) /\ sz (bbox_of (Transl d) bb) = sz bb.
@@ -141,6 +160,18 @@ Theorem C03_stack_compose_display_scale : forall st bb k c m q,
   then free_paint (g_box (geo_of st bb)) (g_col (geo_of st bb)) c (shift (g_off (geo_of st bb)) m) q
   else m (padd q (g_off (geo_of st bb))).
 Proof. exact stack_compose_display_scale. Qed.
+
+(* ... and for any magnitudes: |coordinates| of parent box / adapters <= D, of the call <= C, extents <= S, depth <= L
+   with C + L*(L+2)*D + S <= 2^28 (e.g. the +-2^20 correspondence cases: D = C = 2^20+40, S = 40, L = 4) *)
+Theorem C03_stack_compose_small : forall D S L C st bb k c m q,
+  rect_small D S bb -> Forall (ad_small D S) st -> call_small C S c ->
+  0 <= D -> 0 <= S -> 0 <= C -> Z.of_nat (length st) <= L ->
+  C + L * ((L + 2) * D) + S <= lim -> D + S <= lim ->
+  paint_all bb k (lower st bb c) m (padd q (g_off (geo_of st bb))) =
+  if g_vis (geo_of st bb) q
+  then free_paint (g_box (geo_of st bb)) (g_col (geo_of st bb)) c (shift (g_off (geo_of st bb)) m) q
+  else m (padd q (g_off (geo_of st bb))).
+Proof. exact stack_compose_small. Qed.
 
 (* whole histories of calls *)
 Theorem C03_stack_history : forall st bb k ops,
